@@ -154,8 +154,10 @@ func ZZVerifC04Copy() {
 	want.MkdirAll([]string{"e"})
 
 	destRoot := reftree.NewRoot()
-	pre := nd.Choose("dest-state", 3)
+	pre := nd.Choose("dest-state", 4)
 	switch pre {
+	case 3: // a FILE where the source has the (empty) directory e
+		destRoot.WriteFile([]string{"e"}, []byte("old"))
 	case 1: // longer files already there
 		destRoot.WriteFile([]string{"f"}, []byte("zzzz"))
 		destRoot.WriteFile([]string{"d", "g"}, []byte("yyy"))
@@ -177,7 +179,7 @@ func ZZVerifC04Copy() {
 		dest = e
 	}
 	*raw.FailAt = nd.Choose("failat", nd.Param("F", 12)+1) - 1
-	helper := nd.Choose("helper", 4)
+	helper := nd.Choose("helper", 5)
 	var err error
 	switch helper {
 	case 0:
@@ -189,6 +191,8 @@ func ZZVerifC04Copy() {
 		err = (fshelper.Copier{SrcFS: src, SrcPath: "d", DestFS: dest, DestPath: "d"}).Do()
 	case 3:
 		err = fshelper.Copy(src, dest, nil)
+	case 4: // an empty directory
+		err = (fshelper.Copier{SrcFS: src, SrcPath: "e", DestFS: dest, DestPath: "e"}).Do()
 	}
 	injected := *raw.FailAt >= 0 && *raw.Calls > *raw.FailAt
 	*raw.FailAt = -1
@@ -213,13 +217,64 @@ func ZZVerifC04Copy() {
 		if e := destRoot.Find([]string{"e"}); e == nil || !e.Dir {
 			complete = false
 		}
+	case 4:
+		if e := destRoot.Find([]string{"e"}); e == nil || !e.Dir {
+			complete = false
+		}
 	}
 	if err == nil {
 		nd.Assert(complete, "C04/copy/no-error-means-complete-copy")
 	}
-	if !injected {
+	if !injected && pre != 3 {
 		nd.Assert(err == nil, "C04/copy/succeeds-without-fault")
 	}
 	nd.Assert(nd.Or(complete, err != nil), "C04/copy/incomplete-copy-reports-error")
 	nd.Reach("C04/copy/end")
+}
+
+// ZZVerifC04WrongKind: the destination (a real memory filespace, directly or
+// behind the cache) already holds a node of the OTHER kind where the source
+// has a file, an empty directory or a non-empty directory: whichever helper
+// copies it, "no error" still means that the destination is a complete copy
+// (a file where the source has a file with the same bytes, a directory where
+// it has a directory).
+func ZZVerifC04WrongKind() {
+	src, _ := memfs.NewFilespace()
+	nd.Assume(src.WriteFile("f", []byte("x"), filesystem.DefaultUnixFileMode) == nil)
+	nd.Assume(src.WriteFile("d/g", []byte("y"), filesystem.DefaultUnixFileMode) == nil)
+	nd.Assume(src.MkdirAll("e", filesystem.DefaultUnixDirMode) == nil)
+	base, _ := memfs.NewFilespace()
+	var dest filesystem.Filespace = base
+	if nd.Bool("dest-behind-cache") {
+		c, err := fscache.NewMemCache(base)
+		nd.Assume(err == nil)
+		dest = c
+	}
+	what := nd.Choose("what", 3) // 0 file f, 1 empty directory e, 2 directory d
+	path := []string{"f", "e", "d"}[what]
+	// the node of the other kind that is already there
+	if what == 0 {
+		nd.Assume(dest.MkdirAll("f", filesystem.DefaultUnixDirMode) == nil)
+	} else {
+		nd.Assume(dest.WriteFile(path, []byte("old"), filesystem.DefaultUnixFileMode) == nil)
+	}
+	var err error
+	if nd.Bool("whole-tree") {
+		err = fshelper.Copy(src, dest, nil)
+	} else {
+		err = (fshelper.Copier{SrcFS: src, SrcPath: path, DestFS: dest, DestPath: path}).Do()
+	}
+	if err == nil {
+		if what == 0 {
+			got, rerr := dest.ReadFile("f")
+			nd.Assert(rerr == nil && bytes.Equal(got, []byte("x")), "C04/wrongkind/no-error-means-complete-copy")
+		} else {
+			nd.Assert(dest.IsDir(path), "C04/wrongkind/no-error-means-complete-copy")
+			if what == 2 {
+				got, rerr := dest.ReadFile("d/g")
+				nd.Assert(rerr == nil && bytes.Equal(got, []byte("y")), "C04/wrongkind/no-error-means-complete-copy")
+			}
+		}
+	}
+	nd.Reach("C04/wrongkind/end")
 }
